@@ -118,7 +118,11 @@ func (x *Xlat) stdlib(st *State, fr *Frame, out *Outcomes, ce *ast.CallExpr, rec
 			Eq(Sel(res, App("+", SInt, SOff(s), i)), Sel(old, App("+", SInt, SOff(s), App("-", SInt, App("-", SInt, SLen(s), IntLit(1)), i)))))))
 		st.assume(Forall([]Bind{{"i!", SInt}}, Imp(Or(App("<", SBool, i, SOff(s)), App(">=", SBool, i, App("+", SInt, SOff(s), SLen(s)))),
 			Eq(Sel(res, i), Sel(old, i)))))
-		x.setElems(st, key, es, h, Sto(h, SArr(s), res), touchedWindow(s, SLen(s)))
+		h2 := x.setElems(st, key, es, h, Sto(h, SArr(s), res), touchedWindow(s, SLen(s)))
+		// the same over at(): element i of the reversed slice is element len-1-i of the original
+		lhs := x.atTerm(h2, s, i, es)
+		st.assume(Forall([]Bind{{"i!", SInt}}, Imp(And(App("<=", SBool, IntLit(0), i), App("<", SBool, i, SLen(s))),
+			Eq(lhs, x.atTerm(h, s, App("-", SInt, App("-", SInt, SLen(s), IntLit(1)), i), es))), []*Term{lhs}))
 		x.models["slices.Reverse: element i <-> len-1-i (A5)"] = true
 		return nil
 	case "sort.Slice", "sort.Ints", "sort.Float64s", "sort.SliceStable":
